@@ -303,6 +303,7 @@ def run(chk):
         chk.ob("R7.strict", vb.path, "valid() == (now < expiry), strictly, with now from the system clock", ok,
                f"valid() computes {panics.short_desc(d)}: a session created with lifetime 0 must be born expired")
     db_lookup(chk, prog)
+    unknown_uid(chk, prog)
     whole_password_and_expiry(chk, prog)
     lifetime_fields(chk, prog)
     from . import c02
@@ -701,3 +702,79 @@ def lifetime_fields(chk, prog):
             chk.ob("R7.lifetime_field", b.path, f"{meth}: the lifetime is self.config.{field}", ok,
                    f"lifetime = {panics.short_desc(d)}: the token then expires after the other configured lifetime", where=b.where(blk))
     chk.floor("lifetime field writers / readers", n, 4)
+
+
+LOOKUP_UID = r"get_user_by_uid$"
+# receivers that hand the looked-up user to a closure only when the lookup found one
+SOME_ONLY = r"Option::<T>::(map|map_or|map_or_else|is_some_and|and_then|filter|is_none_or)$"
+# calls that may sit between the lookup and the user without supplying a user of their own
+CARRY = r"get_user_by_uid$|Option::<T>::(as_ref|as_mut|unwrap|expect|take|cloned|copied|as_deref|ok_or|ok_or_else)$|Result::<T, E>::(unwrap|expect|ok)$|::clone$|::deref$|::borrow$|::as_ref$|Try>::branch$|::from_residual$"
+
+
+def _only_the_lookup(d):
+    """The description mentions the uid lookup and every call in it merely carries that result (no stand-in user is supplied)."""
+    calls = core.desc_calls(d)
+    if not any(core.re.search(LOOKUP_UID, c[1]) for c in calls):
+        return False, "the user does not come from get_user_by_uid"
+    odd = [c[1] for c in calls if not core.re.search(CARRY, c[1])]
+    if odd:
+        return False, f"the user may come from {core.short(odd[0])} instead of the lookup"
+    if desc_contains(d, lambda y: y[0] in ("agg", "struct") or (y[0] == "multi" and any(not desc_contains(a, lambda z: z[0] == "call" and core.re.search(LOOKUP_UID, z[1]) is not None) for a in y[1]))):
+        return False, "the user may be a stand-in built here instead of the looked-up one"
+    return True, "the looked-up user"
+
+
+def unknown_uid(chk, prog):
+    """R6.unknown_uid: AuthProvider::verify checks the password against the user that get_user_by_uid(uid) found, and against nothing
+    when it found none: the receiver of every User::verify call is the Some payload of that lookup (directly, or as the parameter of a
+    closure an Option combinator runs only for Some), and every value verify() can return is that call's result or `false`."""
+    fn = AP + "verify"
+    b = prog.bodies.get(fn)
+    chk.floor("AuthProvider::verify", 1 if b else 0, 1)
+    if not b:
+        return
+    n = 0
+    from . import shared
+    for bb in shared.family(prog, fn):
+        for blk, t in bb.calls_to(r"user::User::verify$"):
+            n += 1
+            d = panics._strip(describe(prog, bb, t["args"][0]))
+            ok, why = False, f"receiver {panics.short_desc(d)}"
+            if d[0] == "param" and bb is not b:
+                site = core.closure_site(prog, bb)
+                if site:
+                    host, _ = site
+                    for hb, ht in host.calls():
+                        if not any(desc_contains(describe(prog, host, a), lambda y: y[0] == "closure" and y[1] == bb.path) for a in ht["args"][1:]):
+                            continue
+                        if not core.call_matches(ht, SOME_ONLY):
+                            why = f"the closure is run by {core.short(core.callee_names(ht)[0])}"
+                            continue
+                        ok, why = _only_the_lookup(describe(prog, host, ht["args"][0]))
+                        break
+            elif d[0] != "param":
+                ok, why = _only_the_lookup(d)
+            chk.ob("R6.unknown_uid", bb.path, "the password is checked against the user that get_user_by_uid(uid) returned", ok, why, where=bb.where(blk))
+    chk.floor("User::verify call sites in AuthProvider::verify", n, 1)
+    d0 = describe(prog, b, 0)
+
+    def falls_to_false(d):
+        if d == ("lit", False):
+            return True
+        if d[0] == "multi":
+            return bool(d[1]) and all(falls_to_false(a) for a in d[1])
+        if d[0] != "call":
+            return False
+        if core.re.search(r"user::User::verify$", d[1]):
+            return True
+        a = d[2]
+        if core.re.search(r"Option::<T>::unwrap_or$", d[1]):
+            return a[1] == ("lit", False) and falls_to_false(a[0])
+        if core.re.search(r"Option::<T>::(map|and_then|filter)$", d[1]) or core.re.search(r"Option::<T>::is_some_and$", d[1]):
+            return a[1][0] == "closure" and closure_calls(prog, a[1], r"user::User::verify$")
+        if core.re.search(r"Option::<T>::map_or$", d[1]):
+            return a[1] == ("lit", False) and a[2][0] == "closure" and closure_calls(prog, a[2], r"user::User::verify$")
+        if core.re.search(r"Option::<T>::unwrap_or_default$", d[1]):
+            return falls_to_false(a[0])
+        return False
+    chk.ob("R6.unknown_uid", fn, "verify() returns User::verify's answer for the looked-up user and false otherwise", falls_to_false(d0), f"verify() returns {panics.short_desc(d0)}")
